@@ -155,7 +155,7 @@ def _mat(d):
 
 def strat_programs(tier):
     def build(d):
-        kinds = st.sampled_from(["linear", "sin", "poly", "time", "maxfilter"])
+        kinds = st.sampled_from(["linear", "sin", "poly", "time", "maxfilter"] + (["secondorder-view", "secondorder-view"] if d >= 2 and d % 2 == 0 else []))
         return st.builds(lambda nm, kind, A, B, y0, t0, dt, neq, dtv, om: dict(integ=nm, kind=kind, A=A, B=B, y0=y0, t0=t0, dt=dt, neq=neq, dtvec=dtv, omega=om),
                          st.sampled_from(explicit_names()), kinds, _mat(d), _mat(d), st.lists(gen.sfloat(-2, 1), min_size=d, max_size=d), st.one_of(st.just(0.0), gen.sfloat(-2, 2)),
                          gen.logf(-3, 0.5), st.sampled_from([1, 2]) if d >= 2 else st.just(1),
@@ -178,6 +178,12 @@ def rhs_function(case):
         return lambda t, y: (1.0 + math.cos(om * t)) * (A @ y) + math.sin(om * t) * np.diag(B)
     if kind == "maxfilter":
         return lambda t, y: np.maximum(A @ y, np.roll(y, 1)) - y
+    if kind == "secondorder-view":
+        # second-order system x'' = g(x, x', t) written as first-order system (x, v)' = (v, g): see check_programs, where the first block of the
+        # residual is returned as the array field.data[1] ITSELF (no copy) - natural numpy code, and a pure function of the field
+        h = len(A) // 2
+        A11, B11 = A[:h, :h], B[:h, :h]
+        return lambda t, y: np.concatenate([y[h:], A11 @ np.sin(y[:h]) - 0.1 * y[h:] + math.cos(om * t) * np.diag(B11)])
     raise ValueError(kind)
 
 
@@ -192,9 +198,14 @@ def check_programs(case):
     neq = case["neq"]
     split = d // 2 if neq == 2 else d
 
+    if case["kind"] == "secondorder-view":
+        neq, split = 2, d // 2
+
     def fun(k, t, data):
         y = np.concatenate([np.asarray(x, dtype=float) for x in data]) if neq == 2 else np.asarray(data[0], dtype=float)
         r = np.asarray(f(t, y), dtype=float)
+        if case["kind"] == "secondorder-view":
+            return [data[1], r[split:].copy()]        # dx/dt = v returned as the field's own velocity array (shares memory with the field)
         return [r[:split].copy(), r[split:].copy()] if neq == 2 else [r.copy()]
     disc = FakeDisc(fun)
     if neq == 2:
